@@ -640,6 +640,15 @@ func DefaultFetchConfig() *FetchConfig {
 	}
 }
 
+// requestContext derives the context of one HTTP request from parent, bounded
+// by TimeoutSeconds when that is positive.
+func (c *FetchConfig) requestContext(parent context.Context) (context.Context, context.CancelFunc) {
+	if c.TimeoutSeconds > 0 {
+		return context.WithTimeout(parent, time.Duration(c.TimeoutSeconds*float64(time.Second)))
+	}
+	return context.WithCancel(parent)
+}
+
 // FetchWithParallelRangeRequests fetches data from a URL using parallel
 // HTTP Range requests when the content is large enough and the server
 // supports byte-range serving. Falls back to simple GET otherwise.
@@ -649,7 +658,13 @@ func FetchWithParallelRangeRequests(client *http.Client, rawURL string, cfg *Fet
 	}
 
 	// Probe: HEAD request to check Content-Length and Accept-Ranges
-	headResp, err := client.Head(rawURL)
+	headCtx, headCancel := cfg.requestContext(context.Background())
+	defer headCancel()
+	headReq, err := http.NewRequestWithContext(headCtx, http.MethodHead, rawURL, nil)
+	if err != nil {
+		return nil, err
+	}
+	headResp, err := client.Do(headReq)
 	if err != nil {
 		// Fallback to simple GET on HEAD failure
 		return fetchSimple(client, rawURL, cfg)
@@ -711,7 +726,12 @@ func FetchWithParallelRangeRequests(client *http.Client, rawURL string, cfg *Fet
 			rangeEnd = contentLength - 1
 		}
 
-		req, _ := http.NewRequestWithContext(ctx, "GET", rawURL, nil)
+		// TimeoutSeconds bounds this one attempt (request and body read): a
+		// server that accepts the request and then goes silent must not keep
+		// the whole fetch waiting forever.
+		reqCtx, reqCancel := cfg.requestContext(ctx)
+		defer reqCancel()
+		req, _ := http.NewRequestWithContext(reqCtx, "GET", rawURL, nil)
 		req.Header.Set("Range", fmt.Sprintf("bytes=%d-%d", rangeStart, rangeEnd))
 
 		resp, err := client.Do(req)
@@ -881,7 +901,13 @@ func FetchWithParallelRangeRequests(client *http.Client, rawURL string, cfg *Fet
 }
 
 func fetchSimple(client *http.Client, rawURL string, cfg *FetchConfig) ([]byte, error) {
-	resp, err := client.Get(rawURL)
+	ctx, cancel := cfg.requestContext(context.Background())
+	defer cancel()
+	req, err := http.NewRequestWithContext(ctx, http.MethodGet, rawURL, nil)
+	if err != nil {
+		return nil, err
+	}
+	resp, err := client.Do(req)
 	if err != nil {
 		return nil, err
 	}
